@@ -37,7 +37,20 @@ func (r *Rng) Intn(n int) int {
 func (r *Rng) Range(lo, hi int) int  { return lo + r.Intn(hi-lo+1) }
 func (r *Rng) Float() float64        { return float64(r.U64()>>11) / float64(1<<53) }
 func (r *Rng) Chance(p float64) bool { return r.Float() < p }
-func pick[T any](r *Rng, xs []T) T   { return xs[r.Intn(len(xs))] }
+
+// Perm is a random permutation of 0..n-1.
+func (r *Rng) Perm(n int) []int {
+	p := make([]int, n)
+	for i := range p {
+		p[i] = i
+	}
+	for i := n - 1; i > 0; i-- {
+		j := r.Intn(i + 1)
+		p[i], p[j] = p[j], p[i]
+	}
+	return p
+}
+func pick[T any](r *Rng, xs []T) T { return xs[r.Intn(len(xs))] }
 
 // Profile shapes the worlds and workloads of one property's check.
 type Profile struct {
@@ -59,6 +72,9 @@ type Profile struct {
 	Unusual bool
 	// NativeUpdaters: the manager registers Go updaters on the native interpreter
 	NativeUpdaters bool
+	// LateFailBias: share of the malformed requests that are updates failing in a
+	// late action, after an earlier action worked on a collection of the item
+	LateFailBias float64
 	// BigUniverse: up to 5 hash and range values per table (thorough tier)
 	BigUniverse bool
 	// BigTables: the check has a big-table class (thorough tier); Big: this run is one
@@ -79,6 +95,7 @@ type RunCfg struct {
 	MapOrder   int                `json:"map_order"`
 	FaultFree  bool               `json:"fault_free"`
 	AvoidKnown bool               `json:"avoid_known"`
+	BigValues  bool               `json:"big_values,omitempty"`
 }
 
 var strPool = []string{"a", "b", "ab", "abc", "x", "xy", "a.b", "B", "zz"}
@@ -107,6 +124,9 @@ type Gen struct {
 	inFilter   bool
 	natFilters []natFilter
 	natUpdates []natUpdate
+	// hot: the collection a request that had to fail has just (not) touched;
+	// the next command probes it (workload placed right after the fault)
+	hot *hotSpot
 }
 
 type natUpdate struct {
@@ -351,6 +371,8 @@ func (g *Gen) drawCfg() {
 		}
 		cfg.Weights[k] = wgt * (0.5 + 1.5*r.Float())
 	}
+	// a tenth of the runs with unusual values: most collections are big ones
+	cfg.BigValues = p.Unusual && r.Chance(0.1)
 	if p.NativeUpdaters && !cfg.FaultFree && r.Chance(0.15) {
 		// native-heavy runs: activation and Go updaters early and often
 		cfg.Weights["native"] = 2
@@ -394,6 +416,19 @@ func (g *Gen) Setup() []*Cmd {
 					}
 					out = append(out, b)
 				}
+				if g.R.Chance(0.5) {
+					// the table shrinks to a handful of items again (thresholds on
+					// the way down: spare capacity, compaction)
+					left := g.R.Range(3, 12)
+					perm := g.R.Perm(n)
+					for start := 0; start+left < n; start += 25 {
+						b := &Cmd{ID: g.id(), Actor: "setup", Op: "BatchWrite", C: c}
+						for j := start; j+left < n && j < start+25; j++ {
+							b.Batch = append(b.Batch, BatchReq{T: name, Del: keys[perm[j]].Clone()})
+						}
+						out = append(out, b)
+					}
+				}
 			}
 		}
 	}
@@ -404,6 +439,9 @@ func (g *Gen) value(typ string) AV {
 	r := g.R
 	switch typ {
 	case "S":
+		if g.P.Prop == "C19" && r.Chance(0.02) {
+			return S(strings.Repeat("longer-string-", 1400)) // about 19 KB
+		}
 		if g.P.Unusual && (r.Chance(0.02) || g.P.Prop == "C19" && r.Chance(0.1)) {
 			return S(strings.Repeat("long-string-", 420)) // about 5 KB
 		}
@@ -419,7 +457,7 @@ func (g *Gen) value(typ string) AV {
 	case "NULL":
 		return Null()
 	case "SS":
-		if g.P.Unusual && r.Chance(0.03) {
+		if g.P.Unusual && (r.Chance(0.03) || g.Cfg.BigValues && r.Chance(0.6)) {
 			var big []string
 			for i := 0; i < 33; i++ {
 				big = append(big, fmt.Sprintf("m%02d", i))
@@ -433,6 +471,13 @@ func (g *Gen) value(typ string) AV {
 		}
 		return SSet(sortedKeys(m)...)
 	case "NS":
+		if g.P.Unusual && (r.Chance(0.02) || g.Cfg.BigValues && r.Chance(0.6)) {
+			var big []string
+			for i := 0; i < 34; i++ {
+				big = append(big, fmt.Sprint(100+i))
+			}
+			return NSet(big...)
+		}
 		n := r.Range(1, 3)
 		m := map[string]bool{}
 		for i := 0; i < n; i++ {
@@ -456,6 +501,13 @@ func (g *Gen) value(typ string) AV {
 		}
 		return Map(map[string]AV{"k": Map(map[string]AV{"z": g.value("S")}), "j": g.value("BOOL")})
 	case "L":
+		if g.P.Unusual && (r.Chance(0.02) || g.Cfg.BigValues && r.Chance(0.6)) {
+			var big []AV
+			for i := 0; i < 33; i++ {
+				big = append(big, N(fmt.Sprint(i)))
+			}
+			return List(big...)
+		}
 		switch r.Intn(6) {
 		case 0:
 			return List(g.value("S"))
@@ -832,8 +884,85 @@ func (g *Gen) Next(m *Model, eng *Engine) *Cmd {
 	return &Cmd{ID: g.id(), Op: "Describe", C: 0, T: g.W.Tables[0].Name, Actor: "reader"}
 }
 
+type hotSpot struct {
+	c     int
+	table string
+	key   Item
+	attr  string
+}
+
+// followUp reads or extends, through an expression, the collection a failed
+// request named: a condition on its members, or a successful update of it.
+func (g *Gen) followUp(m *Model, h *hotSpot) *Cmd {
+	r := g.R
+	mt := m.Clients[h.c].Tables[h.table]
+	if mt == nil || m.Clients[h.c].Fail != "none" || m.Clients[h.c].Native {
+		return nil
+	}
+	cur := mt.Items[KeyID(mt.Def, h.key)]
+	v, ok := cur[h.attr]
+	if !ok {
+		return nil
+	}
+	g.uniq++
+	cmd := &Cmd{C: h.c, T: h.table, Op: "Update", Actor: "writer", Key: h.key.Clone(), NeedHas: map[string]string{h.attr: v.T}}
+	if v.T == "L" && len(v.L) > 0 {
+		cmd.NeedHas[h.attr] = "L:" + v.L[0].T
+	}
+	path := Path{Attr: h.attr, Alias: true}
+	if r.Chance(0.5) {
+		cmd.Upd = Update{{Kind: "SET", Path: P("b"), Form: "val", Val: S(fmt.Sprintf("v%d", g.uniq))}}
+		switch v.T {
+		case "SS":
+			cmd.Cond = &Expr{Op: "contains", Path: &path, Vals: []AV{S(pick(r, []string{"added", "m00", v.SS[0]}))}}
+		case "NS":
+			cmd.Cond = &Expr{Op: "contains", Path: &path, Vals: []AV{N(pick(r, []string{"7", "100", v.SS[0]}))}}
+		case "L":
+			if len(v.L) == 0 || (v.L[0].T != "S" && v.L[0].T != "N") {
+				return nil
+			}
+			path.Sub = []PathElem{{IsI: true, Idx: 0}}
+			cmd.Cond = &Expr{Op: "=", Path: &path, Vals: []AV{v.L[0]}}
+		case "M":
+			path.Sub = []PathElem{{Key: "k"}}
+			cmd.Cond = &Expr{Op: "exists", Path: &path}
+		default:
+			return nil
+		}
+		if r.Chance(0.3) {
+			cmd.Cond = &Expr{Op: "not", Args: []*Expr{cmd.Cond}}
+			cmd.Cond.Args[0].Paren = true
+		}
+		cmd.RetOnFail = r.Chance(0.3)
+		return cmd
+	}
+	switch v.T {
+	case "SS":
+		cmd.Upd = Update{{Kind: "ADD", Path: path, Val: SSet("zz")}}
+	case "NS":
+		cmd.Upd = Update{{Kind: "ADD", Path: path, Val: NSet("3")}}
+	case "L":
+		cmd.Upd = Update{{Kind: "SET", Path: path, Form: "append", Src: &path, Val: List(S("tail"))}}
+	case "M":
+		p2 := path
+		p2.Sub = []PathElem{{Key: "j"}}
+		cmd.Upd = Update{{Kind: "SET", Path: p2, Form: "val", Val: S(fmt.Sprintf("v%d", g.uniq))}}
+	default:
+		return nil
+	}
+	return cmd
+}
+
 func (g *Gen) try(m *Model, eng *Engine) *Cmd {
 	r := g.R
+	if h := g.hot; h != nil {
+		g.hot = nil
+		if r.Chance(0.7) {
+			if c := g.followUp(m, h); c != nil {
+				return c
+			}
+		}
+	}
 	c := r.Intn(len(m.Clients))
 	mc := m.Clients[c]
 	kind := g.kind()
@@ -1519,6 +1648,10 @@ func (g *Gen) bad(cmd *Cmd, name string, def TableDef, mt *MTable) *Cmd {
 	key := g.keyFor(name, def, mt)
 	kinds := []string{"key-missing", "key-type", "unused-name", "unused-value", "syntax-cond", "syntax-update", "illtyped-update", "syntax-filter", "syntax-keycond", "undefined-name"}
 	cmd.Bad = pick(r, kinds)
+	forceLate := r.Chance(g.P.LateFailBias)
+	if forceLate {
+		cmd.Bad = "illtyped-update"
+	}
 	brokenConds := []string{"a = ", "a = :x AND", "( a = :x", "a = :x )", "a == :x", "AND a = :x", "a = :x OR OR a = :x", "attribute_exists(a", "a BETWEEN :x", "a IN :x", "size(a) = = :x", "a = :x :x", "a $ :x"}
 	switch cmd.Bad {
 	case "key-missing", "key-type":
@@ -1584,6 +1717,39 @@ func (g *Gen) bad(cmd *Cmd, name string, def TableDef, mt *MTable) *Cmd {
 		cmd.Key = key
 		cmd.RawExpr = pick(r, []string{"SET n = n + :x", "SET a = a - :x", "SET l = list_append(l, :x)", "SET b = :x, n = zz + :x"})
 		cmd.RawVals = Item{":x": S("a")}
+		if forceLate || r.Chance(0.4) {
+			// a collection of the item is changed by an earlier action of the
+			// request that a later action makes fail
+			late := []struct {
+				e string
+				v Item
+			}{
+				{"ADD ss :s SET n = zz + :x", Item{":s": SSet("added"), ":x": S("a")}},
+				{"DELETE ss :s SET n = zz + :x", Item{":s": SSet("m00", "a", "abc"), ":x": S("a")}},
+				{"ADD ns :s SET n = zz + :x", Item{":s": NSet("7"), ":x": S("a")}},
+				{"DELETE ns :s SET n = zz + :x", Item{":s": NSet("100", "1", "2"), ":x": S("a")}},
+				{"SET l[0] = :x, n = zz + :x", Item{":x": S("a")}},
+				{"REMOVE l[0] SET n = zz + :x", Item{":x": S("a")}},
+				{"SET m.k = :x, n = zz + :x", Item{":x": S("a")}},
+				{"REMOVE m.k SET n = zz + :x", Item{":x": S("a")}},
+			}
+			c := pick(r, late)
+			// on an item that has the collection, when there is one
+			attr := strings.Fields(strings.NewReplacer("[", " ", ".", " ").Replace(c.e))[1]
+			if mt != nil {
+				var have []string
+				for _, id := range sortedKeys(mt.Items) {
+					if _, ok := mt.Items[id][attr]; ok {
+						have = append(have, id)
+					}
+				}
+				if len(have) > 0 {
+					cmd.Key = keyOf(def, mt.Items[pick(r, have)])
+					g.hot = &hotSpot{cmd.C, name, cmd.Key.Clone(), attr}
+				}
+			}
+			cmd.RawExpr, cmd.RawVals = c.e, c.v
+		}
 	case "syntax-filter":
 		cmd.Base = pick(r, []string{"Scan", "QueryFilter"})
 		cmd.RawExpr = pick(r, brokenConds)
